@@ -185,7 +185,7 @@ func (a *Authenticator) receivePAP(data []byte) error {
 	identifier := data[1]
 	length := binary.BigEndian.Uint16(data[2:4])
 
-	if int(length) > len(data) {
+	if length < 4 || int(length) > len(data) {
 		return fmt.Errorf("PAP length exceeds packet")
 	}
 
